@@ -304,7 +304,7 @@ CHECKS["C18"] = mk_simple("C18", "subsecond", "sub-second time points floor towa
     "Trusted base: ref_civil.h; parse into sub-second targets near their limits is excluded (documented TODO #199; the property restricts itself to whole seconds or coarser).",
     min_eval=1000000)
 CHECKS["C19"] = mk_simple("C19", "env_enum", "zone names resolve as documented; failures fall back to UTC",
-    "complete product TZDIR in {unset, empty, valid dir, missing dir, valid dir with trailing /} x TZ in {unset, empty, X, :X, ::X, localtime, :localtime, invalid, absolute path, UTC, ':', fixed name} x LOCALTIME in {unset, valid path, invalid path, empty, relative name} = 300 environments, each in a fresh exec of the probe; in each: 29 names + every truncation of two zone files within their footer region (relative valid/missing, absolute valid/missing, file:-prefixed, empty, a directory, 0-byte file, files truncated at each structural boundary, garbage, a leap-second file, ':'-prefixed, UTC, UTC0, fixed names, case/slash variants) + local_time_zone() + default-constructed zone; class = call kind x expected outcome",
+    "complete product TZDIR in {unset, empty, valid dir, missing dir, valid dir with trailing /} x TZ in {unset, empty, X, :X, ::X, localtime, :localtime, invalid, absolute path, UTC, ':', fixed name, localtime2, LOCALTIME, file:X} x LOCALTIME in {unset, valid path, invalid path, empty, relative name} = 375 environments, each in a fresh exec of the probe; in each: 29 names + every truncation of two zone files within their footer region (relative valid/missing, absolute valid/missing, file:-prefixed, empty, a directory, 0-byte file, files truncated at each structural boundary, garbage, a leap-second file, ':'-prefixed, UTC, UTC0, fixed names, case/slash variants) + local_time_zone() + default-constructed zone; class = call kind x expected outcome",
     "Every (environment, name) pair is resolved by a reference resolver written from the header comments (name -> path -> reference TZif reader); returned bool, UTC identity, name() and the offsets/abbreviations at three instants must match; a second load in the same process must agree.",
     ["C19:load:zone", "C19:load:fallback-utc", "C19:load:utc", "C19:local:zone", "C19:local:fallback-utc"],
     "Trusted base: the reference resolver (40 lines) and reference TZif reader; what /etc/localtime and /usr/share/zoneinfo are on the machine is read, not assumed. Runs as root, so permission-denied files are not covered.",
